@@ -14,6 +14,13 @@ ASSUMPTIONS = [
 ]
 HAS_REF = ("xlsx", "xlsb")
 
+# the header-row option belongs to the VALUE reads (worksheet_range / _ref / _at, worksheets, tables cut
+# out of them): formulas, merged regions, metadata, names and VBA are functions of the file alone, so
+# their reference answer is the one a fresh reader gives under the DEFAULT option
+OPTION_FREE = ("formula", "merges", "mergesat", "mergesby", "allmerges", "meta", "names", "sheets", "vba", "tables", "tablesin")
+def ref_option(op, h):
+    return "d" if op.split(" ")[0] in OPTION_FREE else h
+
 def sources(ctx):
     src = [(vlib.fmt_of_ext(e), p) for e, p in vlib.fixtures(("xlsx", "xlsm", "xlsb", "xls", "ods"))]
     try:
@@ -283,7 +290,7 @@ def run(ctx):
             continue
         for op, h in zip(ops, inforce):
             if h != "-":
-                need.setdefault((f, p, h, op), "r%d" % len(need))
+                need.setdefault((f, p, ref_option(op, h), op), "r%d" % len(need))
     rl = ["%s\topen\t%s\t%s\thdr %s;%s" % (rid, f, p, "-" if h == "d" else h, op) for (f, p, h, op), rid in need.items()]
     rimpl = ctx.run_impl(rl)
     for k, (f, p, names, ops) in enumerate(hist):
@@ -303,7 +310,7 @@ def run(ctx):
                 break
             if h == "-":
                 continue
-            ref = (rimpl.get(need[(f, p, h, op)]) or "abort").split(";;")
+            ref = (rimpl.get(need[(f, p, ref_option(op, h), op)]) or "abort").split(";;")
             exp = ref[1] if len(ref) > 1 else "(fresh call failed: %s)" % ";;".join(ref)
             if ans[i] != exp:
                 ctx.violations.append({"case": case, "expected": exp[:300], "actual": ans[i][:300], "model": "option in force: " + h,
